@@ -7,8 +7,8 @@
   HeadObject, backend/posix/with_otmpfile.go openTmpFile / link / linkAndReplace / fallbackLink,
   without_otmpfile.go link, backend/common.go MoveFile, backend/meta/xattr.go,
   github.com/pkg/xattr list/get). `Variant` / `codeVariant` name which code the configurations stand
-  for: the code as it is, the regression variant before commit 4399f3e (remove-then-link), and the
-  code with the proposed fix of GetObject/HeadObject (docs/C05-fix-2.diff):
+  for: the code as it is, and the regression models (publication by remove-then-link before 4399f3e,
+  reads by path before 109ae9c, CopyObject failing on its final stat before 4e82e48):
 
   * the directory entry of the key (`FS.key : Option Nat`, an inode id) and the table of inodes that
     were ever published under the key (`FS.inodes`, append-only; the id of an inode is its index, so
@@ -103,15 +103,19 @@ inductive Strategy where
   | otmp | mktemp | portable | otmpOld | mktempOld
 deriving DecidableEq, Repr, Inhabited
 
-/-- how GetObject/HeadObject read: `byPath` = stat, attributes and open all by path (the code as it
-    is); `byFd` = open first, then fstat / attributes through the descriptor (the proposed fix). -/
+/-- how GetObject/HeadObject read: `byFd` = the code as it is (since 109ae9c): open first, then fstat
+    and the attributes through the descriptor; `byPath` = REGRESSION variant: stat, attributes and
+    open each by path. -/
 inductive ReadMode where
   | byPath | byFd
 deriving DecidableEq, Repr, Inhabited
 
 structure Cfg where
   strat : Strategy := .otmp
-  rmode : ReadMode := .byPath
+  rmode : ReadMode := .byFd
+  /-- REGRESSION variant (before 4e82e48): CopyObject fails (500) when its stat of the destination
+      after the publication finds nothing. -/
+  copyStatFatal : Bool := false
 deriving DecidableEq, Repr, Inhabited
 
 inductive Kind where
@@ -153,7 +157,7 @@ inductive Act where
   | linkatx                    -- linkat(/proc/self/fd/N → key); EEXIST → linkAndReplace (linktmp, rename)
   | rename                     -- renameat(temp → key)
   | linktmp                    -- linkat(/proc/self/fd/N → a fresh name under .sgwtmp)
-  | cstat                      -- CopyObject: os.Stat(dstObjdPath) after PutObject returned; an error fails the request
+  | cstat                      -- CopyObject: os.Stat(dstObjdPath) after PutObject returned (LastModified); ENOENT is tolerated
   -- delete
   | dstat | dunlink
   -- readers
@@ -174,7 +178,7 @@ deriving DecidableEq, Repr, Inhabited
 
 inductive Resp where
   | ok | noSuchKey
-  | err                        -- InternalError (CopyObject: "stat dst object")
+  | err                        -- InternalError (regression variant of CopyObject: "stat dst object")
   | read (r : ReadResp)
 deriving DecidableEq, Repr, Inhabited
 
@@ -282,9 +286,8 @@ def execAct (c : Cfg) (rq : Req) (fs : FS) (l : Local) (a : Act) : FS × Local :
     | none => ({ inodes := fs.inodes ++ [l.tmp], key := some fs.inodes.length }, l)
     | some _ => (fs, { l with prog := .linktmp :: .lstat :: .rename :: l.prog })   -- EEXIST: linkAndReplace
   | .rename => ({ inodes := fs.inodes ++ [l.tmp], key := some fs.inodes.length }, l)
-  | .cstat => match fs.key with
-    | none => (fs, { l with prog := [], result := some .err })
-    | some _ => (fs, l)
+  | .cstat =>
+    if c.copyStatFatal = true ∧ fs.key = none then (fs, { l with prog := [], result := some .err }) else (fs, l)
   | .dstat => match fs.key with
     | none => (fs, { l with prog := [], result := some .ok })    -- "AWS returns success if the object does not exist"
     | some _ => (fs, l)
@@ -349,20 +352,20 @@ inductive Reach (c : Cfg) (s0 : State) : State → Prop where
   | refl : Reach c s0 s0
   | step {s s' : State} {i : Nat} : Reach c s0 s → step c s i = some s' → Reach c s0 s'
 
-/-- which code the model variants stand for: `old` = before 4399f3e (regression variant), `current`
-    = the code as it is, `proposed` = with the proposed fix of GetObject/HeadObject (docs/C05-fix-2). -/
+/-- which code the configurations stand for: `current` = the code as it is; `old` = REGRESSION model:
+    publication by remove-then-link (before 4399f3e), GetObject/HeadObject by path (before 109ae9c),
+    CopyObject failing on its final stat (before 4e82e48). -/
 inductive Variant where
-  | old | current | proposed
+  | old | current
 deriving DecidableEq, Repr, Inhabited
 
 /-- the configuration of a variant; `otmp` = the gateway uses O_TMPFILE (default) or not (`--disableotmp`). -/
 def Variant.cfg (v : Variant) (otmp : Bool) : Cfg :=
   match v with
-  | .old => ⟨if otmp then .otmpOld else .mktempOld, .byPath⟩
-  | .current => ⟨if otmp then .otmp else .mktemp, .byPath⟩
-  | .proposed => ⟨if otmp then .otmp else .mktemp, .byFd⟩
+  | .old => ⟨if otmp then .otmpOld else .mktempOld, .byPath, true⟩
+  | .current => ⟨if otmp then .otmp else .mktemp, .byFd, false⟩
 
-/-- THE variant the code under test has (one constant to switch after a `fix:` commit). -/
+/-- THE variant the code under test has (one constant to switch). -/
 def codeVariant : Variant := .current
 
 def State.resp (s : State) (i : Nat) : Option Resp :=
